@@ -10,6 +10,15 @@
      encsep  the three characters "%2f" AS SEEN BY THE HANDLER (i.e. after the transport decoded once)
      nul     a NUL byte
      long    a 4 KiB segment
+     lkdot   a LOOK-ALIKE of ".": a Unicode compatibility form (U+FF0E fullwidth full stop, U+2024 one dot leader,
+             U+FE52 small full stop) or an overlong / invalid UTF-8 encoding (C0 AE, E0 80 AE)
+     lkup    a look-alike of "..": U+2025 two dot leader, or two lkdot, or ".." itself next to a look-alike separator
+     lksep   a look-alike of "/": U+FF0F fullwidth solidus, U+2215 division slash, U+2044 fraction slash,
+             overlong C0 AF / E0 80 AF
+   Look-alikes are ordinary word characters for every byte-wise check (strings.Contains, filepath.Base) and for the
+   kernel - UNLESS the call site transforms the name (Unicode normalisation NFKC/NFKD, lenient UTF-8 decoding, case /
+   width folding) between its validation and its use: then they become the real thing AFTER the guard looked.
+   NormAfterGuard is the set of APIs assumed to do that (none in the code as it is).
    Every API operation that derives a file path from request data is one record of
    Apis: how the name reaches the handler (transport), which validation the call
    site applies, how the call site builds the path (plain string concatenation or
@@ -17,81 +26,113 @@
    does with the file.  Resolve(api, name) is the resulting normalised location
    relative to the API's base directory or a rejection.
 
-   Transport facts (fasthttp + fasthttp/router, established by reading
-   fasthttp.URI.normalizePath and confirmed by the replay):
-     pathparam  the request path is percent-decoded ONCE and normalised ("/./", "/../" and
-                "//" removed) BEFORE routing; a {param} matches one path segment.  A name
-                containing sep, up, dot or abs therefore never arrives as the parameter (the
-                request is routed elsewhere / 404).  A double-encoded separator arrives as the
-                literal "%2f" (class encsep).
-     body       JSON field / multipart form value / query text: arrives unchanged.
+   Entry points and transport facts:
+     entry "http", transport pathparam: fasthttp/router v1.4.1 matches on URI.PathOriginal(), the RAW request path
+                (neither percent-decoded nor normalised); a {param} is one raw segment.  A name containing a literal
+                "/" (sep, abs) never arrives as the parameter (routed elsewhere / 404); "%2f" stays the literal three
+                characters (encsep); a stand-alone "." or ".." does arrive.
+     entry "handler": the exported request handler is called with the route parameter carrying the name verbatim.
+                That a parameter cannot contain "/" is a property of the router version, not a validation by siglens;
+                the handlers are the trust boundary (pathparam APIs only; for body transports both entries coincide).
+     transport body: JSON field / multipart form value / query text: arrives unchanged at both entries.
 
-   Guard = TRUE models the repaired call sites (docs/patches/C19-*.patch: reject a name
-   whose cleaned path leaves the base directory); Guard = FALSE is the code as it is. *)
+   History (id-keyed stores: dashboards, folders, saved queries, alerts, contact points): the hostile name is used as an
+   id the store does NOT know, in three store states - "fresh", "created" (a legitimate object exists) and "deleted"
+   (it was created and deleted again).  A client-invented name is never a server-generated key, so a call site
+   with check = "known" must reject it in every state.
+
+   GuardMode = "all" models every call site rejecting a name whose cleaned path leaves its base directory;
+   GuardMode = "ascode" uses the per-API `guard` field = the code as it is. *)
 EXTENDS Integers, Sequences, FiniteSets, TLC
 
-CONSTANTS MaxLen,      \* maximal number of segment classes in a name
-          Guard        \* BOOLEAN
+CONSTANTS MaxLen,          \* maximal number of segment classes in a name
+          GuardMode,       \* "all" | "ascode"
+          NormAfterGuard,  \* set of api names whose call site normalises the name between validation and use
+          Classes          \* the segment classes names are built from (AllClasses, or a subset for a quick export)
 
-Classes == {"plain", "dot", "up", "sep", "abs", "encsep", "nul", "long"}
+AllClasses == {"plain", "dot", "up", "sep", "abs", "encsep", "nul", "long", "lkdot", "lkup", "lksep"}
+CoreClasses == {"plain", "up", "sep", "abs", "encsep", "lkup", "lksep"}
+AllApiNames == {"lookup-upload", "lookup-get", "lookup-delete", "inputlookup", "bulk-index", "put-index", "doc-index", "alias-put",
+                "aliases-add", "aliases-remove", "alias-get", "index-delete", "dashboard-get", "dashboard-fav", "dashboard-update",
+                "dashboard-delete", "folder-create", "folder-get", "folder-delete", "usq-save", "usq-delete", "metric-name", "scroll-id",
+                "metric-tagkey", "alert-get", "alert-delete", "contact-delete"}
+NoApis == {}
 
 (* transport, validation, construction, effect; suffix = the call site appends an extension to the name (so a trailing ".."
-   becomes the word "..ext"); base = depth of the base directory below the data directory *)
+   becomes the word "..ext"); base = depth of the base directory below the data directory; guard = the call site rejects
+   names that are not a single path component (state of the code: the lookups / inputlookup / index+alias / tag-key fixes are
+   in; the dashboards package has no such check); store = id-keyed store (history dimension) *)
+Api(n, t, c, b, e, sfx, d, g, st) ==
+  [api |-> n, transport |-> t, check |-> c, build |-> b, effect |-> e, suffix |-> sfx, base |-> d, guard |-> g, store |-> st]
 Apis == {
-  \* pkg/lookups/lookups.go UploadLookupFile: name := multipart form value; ".csv" appended unless present; filepath.Join(lookupDir, name)
-  [api |-> "lookup-upload",   transport |-> "body",      check |-> "none",      build |-> "join",   effect |-> "write",  suffix |-> TRUE, base |-> 1],
-  \* GetLookupFile / DeleteLookupFile: name := route parameter {lookupFilename}; filepath.Join(lookupDir, name)
-  [api |-> "lookup-get",      transport |-> "pathparam", check |-> "none",      build |-> "join",   effect |-> "read",   suffix |-> FALSE, base |-> 1],
-  [api |-> "lookup-delete",   transport |-> "pathparam", check |-> "none",      build |-> "join",   effect |-> "delete", suffix |-> FALSE, base |-> 1],
-  \* inputlookupcommand.go / generateevents.go: file name from the query text; must end in .csv/.csv.gz; filepath.Join(lookupDir, name)
-  [api |-> "inputlookup",     transport |-> "body",      check |-> "csvsuffix", build |-> "join",   effect |-> "read",   suffix |-> TRUE, base |-> 1],
-  \* esBulkHandler.go: _index of the action line -> vtable.AddVirtualTable (appends the NAME to virtualtablenames.txt) and, at flush,
-  \* config.GetBaseSegDir: DataPath + host + "/final/" + index + "/" + streamid + "/" + suffix + "/" (plain concatenation, MkdirAll)
-  [api |-> "bulk-index",      transport |-> "body",      check |-> "none",      build |-> "concat", effect |-> "write",  suffix |-> FALSE, base |-> 2],
-  \* ProcessPutIndex (PUT /elastic/{indexName}, .../_mapping): AddMapping: VTableMappingsDir + name + ".json" (concatenation)
-  [api |-> "put-index",       transport |-> "pathparam", check |-> "none",      build |-> "concat", effect |-> "write",  suffix |-> TRUE, base |-> 4],
-  \* ProcessPutPostSingleDocRequest (POST /elastic/{indexName}/_doc): AddMappingFromADoc -> AddMapping; segment directories as bulk
-  [api |-> "doc-index",       transport |-> "pathparam", check |-> "none",      build |-> "concat", effect |-> "write",  suffix |-> FALSE, base |-> 2],
+  \* pkg/lookups/lookups.go UploadLookupFile: name := multipart form value; isPlainFileName; ".csv" appended; filepath.Join(lookupDir, name)
+  Api("lookup-upload",    "body",      "none",      "join",   "write",  TRUE,  1, TRUE,  FALSE),
+  \* GetLookupFile / DeleteLookupFile: name := route parameter {lookupFilename}; isPlainFileName; filepath.Join(lookupDir, name)
+  Api("lookup-get",       "pathparam", "none",      "join",   "read",   FALSE, 1, TRUE,  FALSE),
+  Api("lookup-delete",    "pathparam", "none",      "join",   "delete", FALSE, 1, TRUE,  FALSE),
+  \* inputlookupcommand.go / generateevents.go: file name from the query text; .csv/.csv.gz; Base check; filepath.Join(lookupDir, name)
+  Api("inputlookup",      "body",      "csvsuffix", "join",   "read",   TRUE,  1, TRUE,  FALSE),
+  \* esBulkHandler.go: _index -> ProcessIndexRequestPle (IsNameSafeForPath) -> vtable.AddVirtualTable; at flush config.GetBaseSegDir:
+  \* DataPath + host + "/final/" + index + "/" + streamid + "/" + suffix + "/" (plain concatenation, MkdirAll)
+  Api("bulk-index",       "body",      "none",      "concat", "write",  FALSE, 2, TRUE,  FALSE),
+  \* ProcessPutIndex (PUT /elastic/{indexName}, .../_mapping): AddMapping: VTableMappingsDir + name + ".json" (IsNameSafeForPath)
+  Api("put-index",        "pathparam", "none",      "concat", "write",  TRUE,  4, TRUE,  FALSE),
+  \* ProcessPutPostSingleDocRequest (POST /elastic/{indexName}/_doc): AddVirtualTable, AddMappingFromADoc; segment directories as bulk
+  Api("doc-index",        "pathparam", "none",      "concat", "write",  FALSE, 2, TRUE,  FALSE),
   \* ProcessPutAliasesRequest (PUT /elastic/{indexName}/_alias/{aliasName}): AddAliases: VTableAliasesDir + index + ".json"
-  [api |-> "alias-put",       transport |-> "pathparam", check |-> "none",      build |-> "concat", effect |-> "write",  suffix |-> TRUE, base |-> 4],
-  \* ProcessPostAliasesRequest (POST /elastic/_aliases): index from the JSON body -> AddAliases (GetAliases reads, writeAliasFile writes)
-  [api |-> "aliases-add",     transport |-> "body",      check |-> "none",      build |-> "concat", effect |-> "write",  suffix |-> TRUE, base |-> 4],
-  \* ... remove action -> RemoveAliases -> removeAliasFile: os.Remove(VTableAliasesDir + index + ".json")
-  [api |-> "aliases-remove",  transport |-> "body",      check |-> "none",      build |-> "concat", effect |-> "delete", suffix |-> TRUE, base |-> 4],
-  \* ProcessGetIndexAlias (GET /elastic/{indexName}/_alias/{aliasName}): GetAliases reads VTableAliasesDir + index + ".json"
-  [api |-> "alias-get",       transport |-> "pathparam", check |-> "none",      build |-> "concat", effect |-> "read",   suffix |-> TRUE, base |-> 4],
+  Api("alias-put",        "pathparam", "none",      "concat", "write",  TRUE,  4, TRUE,  FALSE),
+  \* ProcessPostAliasesRequest (POST /elastic/_aliases): index from the JSON body -> AddAliases / RemoveAliases
+  Api("aliases-add",      "body",      "none",      "concat", "write",  TRUE,  4, TRUE,  FALSE),
+  Api("aliases-remove",   "body",      "none",      "concat", "delete", TRUE,  4, TRUE,  FALSE),
+  \* ProcessGetIndexAlias / ProcessGetAlias: GetAliases reads VTableAliasesDir + index + ".json"
+  Api("alias-get",        "pathparam", "none",      "concat", "read",   TRUE,  4, TRUE,  FALSE),
   \* ProcessDeleteIndex (DELETE /elastic/{indexName}): only names present in the virtual-table list are deleted
-  [api |-> "index-delete",    transport |-> "pathparam", check |-> "known",     build |-> "concat", effect |-> "delete", suffix |-> FALSE, base |-> 2],
-  \* dashboards.go getDashboard / toggleFavorite: route parameter {dashboard-id}; DataPath + ".../dashboards/details/" + id + ".json"
-  [api |-> "dashboard-get",   transport |-> "pathparam", check |-> "none",      build |-> "concat", effect |-> "read",   suffix |-> TRUE, base |-> 4],
-  [api |-> "dashboard-fav",   transport |-> "pathparam", check |-> "none",      build |-> "concat", effect |-> "write",  suffix |-> TRUE, base |-> 4],
+  Api("index-delete",     "pathparam", "known",     "concat", "delete", FALSE, 2, FALSE, FALSE),
+  \* dashboards.go getDashboard / toggleFavorite: route parameter {dashboard-id}; DataPath + ".../dashboards/details/" + id + ".json";
+  \* NO check of the id at all (getDashboard also writes the file back through refreshFolderMetadata)
+  Api("dashboard-get",    "pathparam", "none",      "concat", "read",   TRUE,  4, FALSE, TRUE),
+  Api("dashboard-fav",    "pathparam", "none",      "concat", "write",  TRUE,  4, FALSE, TRUE),
   \* updateDashboard / deleteDashboard: id from the JSON body / route; must be a key of the folder structure (server-generated uuids)
-  [api |-> "dashboard-update", transport |-> "body",     check |-> "known",     build |-> "concat", effect |-> "write",  suffix |-> TRUE, base |-> 4],
-  [api |-> "dashboard-delete", transport |-> "pathparam", check |-> "known",    build |-> "concat", effect |-> "delete", suffix |-> TRUE, base |-> 4],
-  \* folders.go: folder ids / parent ids are keys of folder_structure.json; usqueries.go: the query name is a key of usq.json;
-  \* metric names are stored inside .mnm / tags-tree files: the file path does not depend on the name at all
-  [api |-> "folder-create",   transport |-> "body",      check |-> "none",      build |-> "fixed",  effect |-> "write",  suffix |-> FALSE, base |-> 3],
-  [api |-> "folder-get",      transport |-> "pathparam", check |-> "none",      build |-> "fixed",  effect |-> "read",   suffix |-> FALSE, base |-> 3],
-  [api |-> "usq-save",        transport |-> "body",      check |-> "none",      build |-> "fixed",  effect |-> "write",  suffix |-> FALSE, base |-> 3],
-  [api |-> "usq-delete",      transport |-> "pathparam", check |-> "none",      build |-> "fixed",  effect |-> "delete", suffix |-> FALSE, base |-> 3],
-  [api |-> "metric-name",     transport |-> "body",      check |-> "none",      build |-> "fixed",  effect |-> "write",  suffix |-> FALSE, base |-> 5],
+  Api("dashboard-update", "body",      "known",     "concat", "write",  TRUE,  4, FALSE, TRUE),
+  Api("dashboard-delete", "pathparam", "known",     "concat", "delete", TRUE,  4, FALSE, TRUE),
+  \* folders.go: folder ids / parent ids are keys of folder_structure.json (deleting a folder removes the details files of the
+  \* dashboards it CONTAINS - ids taken from the structure); usqueries.go: the query name is a key of usq.json; alerts and contact
+  \* points live in the sqlite database; metric names are stored inside .mnm / tags-tree files: no path depends on the name
+  Api("folder-create",    "body",      "none",      "fixed",  "write",  FALSE, 3, FALSE, TRUE),
+  Api("folder-get",       "pathparam", "none",      "fixed",  "read",   FALSE, 3, FALSE, TRUE),
+  Api("folder-delete",    "pathparam", "known",     "fixed",  "delete", FALSE, 3, FALSE, TRUE),
+  Api("usq-save",         "body",      "none",      "fixed",  "write",  FALSE, 3, FALSE, TRUE),
+  Api("usq-delete",       "pathparam", "none",      "fixed",  "delete", FALSE, 3, FALSE, TRUE),
+  Api("alert-get",        "pathparam", "known",     "fixed",  "read",   FALSE, 0, FALSE, TRUE),
+  Api("alert-delete",     "body",      "known",     "fixed",  "delete", FALSE, 0, FALSE, TRUE),
+  Api("contact-delete",   "body",      "known",     "fixed",  "delete", FALSE, 0, FALSE, TRUE),
+  Api("metric-name",      "body",      "none",      "fixed",  "write",  FALSE, 5, FALSE, FALSE),
   \* scroll.go getScrollResultsFilename(baseDir, scroll_id): baseDir + id + ".csv", but only for ids present in the in-memory table
-  [api |-> "scroll-id",       transport |-> "body",      check |-> "known",     build |-> "concat", effect |-> "read",   suffix |-> TRUE, base |-> 2],
-  \* metrics tags tree (tagstree.go getTagsTreeFileName): ttBase + TAG KEY (concatenation), written at tags-tree flush
-  [api |-> "metric-tagkey",   transport |-> "body",      check |-> "none",      build |-> "concat", effect |-> "write",  suffix |-> FALSE, base |-> 5]
+  Api("scroll-id",        "body",      "known",     "concat", "read",   TRUE,  2, FALSE, FALSE),
+  \* metrics tags tree (tagstree.go getTagsTreeFileName): ttBase + TAG KEY (concatenation); TagsHolder.Insert drops unsafe keys
+  Api("metric-tagkey",    "body",      "none",      "concat", "write",  FALSE, 5, TRUE,  FALSE)
 }
 
 Names == UNION {[1..n -> Classes] : n \in 1..MaxLen}
 Has(name, c) == \E i \in DOMAIN name : name[i] = c
+Entries(a) == IF a.transport = "pathparam" THEN {"http", "handler"} ELSE {"http"}
+Hists(a) == IF a.store THEN {"fresh", "created", "deleted"} ELSE {"fresh"}
+
+(* ---- what the byte-wise checks and the kernel see / what the path is built from ---- *)
+Plainify(name) == [i \in DOMAIN name |-> IF name[i] \in {"lkdot", "lkup", "lksep"} THEN "plain" ELSE name[i]]
+Realify(name) == [i \in DOMAIN name |-> CASE name[i] = "lkdot" -> "dot" [] name[i] = "lkup" -> "up" [] name[i] = "lksep" -> "sep"
+                                          [] OTHER -> name[i]]
+AsChecked(a, name) == Plainify(name)
+AsUsed(a, name) == IF a.api \in NormAfterGuard THEN Realify(name) ELSE Plainify(name)
 
 (* ---- transport ---- *)
-Arrives(a, name) ==
-  IF a.transport = "pathparam" THEN ~(Has(name, "sep") \/ Has(name, "up") \/ Has(name, "dot") \/ Has(name, "abs"))
+Arrives(a, e, name) ==
+  IF a.transport = "pathparam" /\ e = "http" THEN ~(Has(name, "sep") \/ Has(name, "abs"))
   ELSE TRUE
 
 (* ---- validation at the call site ---- *)
-Passes(a, name) ==
-  CASE a.check = "known"     -> FALSE         \* a client-invented name is never a key of the server-side table
+Passes(a, name, h) ==
+  CASE a.check = "known"     -> FALSE         \* a client-invented name is never a key of the server-side table, whatever its history
     [] a.check = "csvsuffix" -> TRUE          \* the concretisation appends ".csv"
     [] OTHER                 -> TRUE
 
@@ -124,26 +165,30 @@ Canon(a, name) == [i \in DOMAIN name |-> IF name[i] = "up" /\ ~IsUp(a, name, i) 
 LeavesBase(a, name) == Walk(Canon(a, name), 1, 0) < 0
 (* leaving the base directory by more than its depth below the data directory leaves the data directory; the model is
    conservative: leaving the BASE is already reported, the replay decides where the path really ends *)
+(* a guard = "the name is a single path component": no separator, not "." / "..", no NUL - evaluated on what the check sees *)
+Guarded(a) == GuardMode = "all" \/ a.guard
+GuardRejects(a, name) == LET n == AsChecked(a, name) IN Has(n, "sep") \/ Has(n, "abs") \/ Has(n, "nul") \/ LeavesBase(a, n)
 
-Resolve(a, name) ==
-  IF ~Arrives(a, name) THEN "NotRouted"
-  ELSE IF ~Passes(a, name) THEN "Rejected"
+Resolve(a, e, name, h) ==
+  IF ~Arrives(a, e, name) THEN "NotRouted"
+  ELSE IF ~Passes(a, name, h) THEN "Rejected"
   ELSE IF a.build = "fixed" THEN "Confined"
-  ELSE IF Guard /\ LeavesBase(a, name) THEN "Rejected"
-  ELSE IF OsRefuses(a, name) THEN "Rejected"
-  ELSE IF LeavesBase(a, name) THEN "Escapes"
+  ELSE IF Guarded(a) /\ GuardRejects(a, name) THEN "Rejected"
+  ELSE IF OsRefuses(a, AsUsed(a, name)) THEN "Rejected"
+  ELSE IF LeavesBase(a, AsUsed(a, name)) THEN "Escapes"
   ELSE "Confined"
 
-VARIABLES api, name, result, done
-vars == <<api, name, result, done>>
-(* one initial state per API (lets TLC explore the APIs in parallel), one step: the client sends a name *)
-Init == api \in Apis /\ name = <<>> /\ result = "-" /\ done = FALSE
+VARIABLES api, entry, hist, name, result, done
+vars == <<api, entry, hist, name, result, done>>
+(* one initial state per (API, entry point, store history) - lets TLC explore them in parallel; one step: the client sends a name *)
+Init == /\ api \in Apis /\ entry \in Entries(api) /\ hist \in Hists(api)
+        /\ name = <<>> /\ result = "-" /\ done = FALSE
 Op(n) == /\ ~done
-         /\ name' = n /\ result' = Resolve(api, n) /\ done' = TRUE /\ UNCHANGED api
+         /\ name' = n /\ result' = Resolve(api, entry, n, hist) /\ done' = TRUE /\ UNCHANGED <<api, entry, hist>>
 Next == \E n \in Names : Op(n)
 Spec == Init /\ [][Next]_vars
 
 (* The property: the resolved path stays under the data directory or the operation is rejected. *)
 Confined == result \in {"-", "Confined", "Rejected", "NotRouted"}
-TypeOK == done \in BOOLEAN
+TypeOK == done \in BOOLEAN /\ entry \in {"http", "handler"} /\ hist \in {"fresh", "created", "deleted"}
 =============================================================================
